@@ -15,11 +15,14 @@ namespace IslaVerif.C13
 open IslaVerif DTree Grammar
 
 /-- an accepted result is a derivation tree of the grammar with the host's root symbol, contains
-every node of the host with its label, and contains the inserted tree -/
+every node of the host with its label (expanded nodes with their expansion), and contains the inserted tree -/
 theorem insertCheck_sound (g : Grammar) (host ins r : DTree) (h : insertCheck g host ins r = true) :
     r.valid g = true ∧ r.sym = host.sym ∧
-    (∀ p u, host.get p = some u → ∃ q v, r.get q = some v ∧ v.id = u.id ∧ v.sym = u.sym) ∧
+    (∀ p u, host.get p = some u → ∃ q v, r.get q = some v ∧ KeepsNode u v) ∧
     (∃ q v, r.get q = some v ∧ Embeds ins v) := insertCheck_sound' g host ins r h
+
+/-- `KeepsNode u v`: same identity and label; an expanded node stays expanded by the same alternative -/
+theorem keepsNode_iff (u v : DTree) : keepsNode u v = true ↔ KeepsNode u v := keepsNode_iff' u v
 
 /-- the executable embedding test is the declarative relation -/
 theorem embedsAt_iff (a b : DTree) : embedsAt a b = true ↔ Embeds a b := embedsAt_iff' a b
